@@ -70,7 +70,8 @@ func (sm *NestedSyncMap) PathExists(key string) bool {
 		}
 		current = casted
 	}
-	return true
+	_, ok := current[elements[len(elements)-1]]
+	return ok
 }
 
 func (sm *NestedSyncMap) lookup(key string) (map[string]any, string) {
